@@ -9,6 +9,7 @@ package main
 
 import (
 	"fmt"
+	"math/big"
 	"sort"
 	"strings"
 
@@ -722,7 +723,7 @@ func distanceFromSpec(thorough bool) composeSpec {
 				}
 			}
 			gotSeg, gotPt := map[string]int{}, map[string]int{}
-			var cand []*fterm // candidate values, in distance (not squared) space
+			var cand []*fterm     // candidate values, in distance (not squared) space
 			node := map[int]int{} // atom of a measured value (squared or not) -> atom of the candidate value
 			for _, ev := range st.events {
 				name := ShortKey(FuncKey(ev.Fn))
@@ -1124,7 +1125,6 @@ func boundSpecs(thorough bool) []composeSpec {
 	return specs
 }
 
-
 // ---------------------------------------------------------------------------
 // order facts of a path
 
@@ -1226,4 +1226,145 @@ func (g *orderGraph) infeasible() bool {
 		}
 	}
 	return false
+}
+
+// ---------------------------------------------------------------------------
+// lower-dimensional centroids (C10): length- and count-weighted means
+
+func lowerCentroidSpecs(thorough bool) []composeSpec {
+	maxN := 4
+	if thorough {
+		maxN = 6
+	}
+	var lineCases, mlsCases, mpCases []composeCase
+	for n := 1; n <= maxN; n++ {
+		n := n
+		lineCases = append(lineCases, composeCase{fmt.Sprintf("%d vertices", n), func(it *Interp, s *State) ([]AV, interface{}) {
+			ln := it.buildGeom(s, pts("LineString", n)).(SliceV)
+			ctx := &resampleCtx{}
+			for _, e := range membersOf(s, ln) {
+				ctx.pts = append(ctx.pts, pointTerms(it, e))
+			}
+			return []AV{ln}, ctx
+		}})
+		mpCases = append(mpCases, composeCase{fmt.Sprintf("%d points", n), func(it *Interp, s *State) ([]AV, interface{}) {
+			mp := it.buildGeom(s, pts("MultiPoint", n)).(SliceV)
+			ctx := &resampleCtx{}
+			for _, e := range membersOf(s, mp) {
+				ctx.pts = append(ctx.pts, pointTerms(it, e))
+			}
+			return []AV{mp}, ctx
+		}})
+	}
+	for m := 1; m <= 3; m++ {
+		m := m
+		mlsCases = append(mlsCases, composeCase{fmt.Sprintf("%d lines", m), func(it *Interp, s *State) ([]AV, interface{}) {
+			var hs []*GeomHyp
+			for i := 0; i < m; i++ {
+				hs = append(hs, pts("LineString", 3))
+			}
+			g := it.buildGeom(s, of("MultiLineString", hs...))
+			ctx := &measureCtx{member: map[string]int{}, n: m}
+			for i, e := range membersOf(s, g) {
+				ctx.member[identString(e)] = i
+			}
+			return []AV{g}, ctx
+		}})
+	}
+	return []composeSpec{
+		{
+			entry: "planar.lineStringCentroidDist", terms: true, cases: lineCases,
+			desc:    "length = sum of the segment lengths d_i; centroid = sum of segment midpoints weighted by d_i, over the length (a single vertex is its own centroid with length 0)",
+			oracles: map[string]func(*ssa.Function) oracleFunc{"planar.Distance": oracleFreshPos},
+			judge: func(it *Interp, cx interface{}, st *State) string {
+				ctx := cx.(*resampleCtx)
+				n := len(ctx.pts)
+				evs := eventsOf(st, "planar.Distance")
+				if len(evs) != n-1 {
+					return fmt.Sprintf("%d segment lengths are measured for %d segments", len(evs), n-1)
+				}
+				total := termConst(0)
+				var num [2]*fterm
+				num[0], num[1] = termConst(0), termConst(0)
+				for i, ev := range evs {
+					// the i-th measurement is of segment i (possibly shifted by a common offset)
+					a, b := pointTerms(it, ev.Args[0]), pointTerms(it, ev.Args[1])
+					for k := 0; k < 2; k++ {
+						if a[k] == nil || b[k] == nil || !termEqual(termAdd(b[k], a[k], -1), termAdd(ctx.pts[i+1][k], ctx.pts[i][k], -1)) {
+							return fmt.Sprintf("measurement %d is not of segment %d (its endpoints differ from the line's vertices %d and %d by more than a common shift)", i, i, i, i+1)
+						}
+					}
+					d := floatTerm(it, ev.Out[0])
+					total = termAdd(total, d, 1)
+					for k := 0; k < 2; k++ {
+						mid := termMul(termConstRat(big.NewRat(1, 2)), termAdd(ctx.pts[i][k], ctx.pts[i+1][k], 1))
+						num[k] = termAdd(num[k], termMul(mid, d), 1)
+					}
+				}
+				R := floatTerm(it, st.result[1])
+				if R == nil || !termEqual(R, total) {
+					return fmt.Sprintf("the returned length is %s, the sum of the segment lengths is %s", R, total)
+				}
+				got := pointTerms(it, st.result[0])
+				for k := 0; k < 2; k++ {
+					want := ctx.pts[0][k]
+					if n > 1 {
+						want = termDiv(num[k], total)
+					}
+					if got[k] == nil || !termEqual(got[k], want) {
+						return fmt.Sprintf("centroid coordinate %d is not the length-weighted mean of the segment midpoints", k)
+					}
+				}
+				return ""
+			},
+		},
+		{
+			entry: "planar.multiLineStringCentroid", terms: true, cases: mlsCases,
+			desc:    "the centroid is the mean of the member lines' centroids weighted by their lengths",
+			oracles: map[string]func(*ssa.Function) oracleFunc{"planar.lineStringCentroidDist": oracleFreshPos},
+			judge: func(it *Interp, cx interface{}, st *State) string {
+				ctx := cx.(*measureCtx)
+				evs, why := memberEvents(ctx, eventsOf(st, "planar.lineStringCentroidDist"), seq(ctx.n))
+				if why != "" {
+					return why
+				}
+				total := termConst(0)
+				num := [2]*fterm{termConst(0), termConst(0)}
+				for _, ev := range evs {
+					d := floatTerm(it, ev.Out[1])
+					c := pointTerms(it, ev.Out[0])
+					total = termAdd(total, d, 1)
+					for k := 0; k < 2; k++ {
+						num[k] = termAdd(num[k], termMul(c[k], d), 1)
+					}
+				}
+				got := pointTerms(it, st.result[0])
+				for k := 0; k < 2; k++ {
+					if got[k] == nil || !termEqual(got[k], termDiv(num[k], total)) {
+						return fmt.Sprintf("centroid coordinate %d is not the length-weighted mean of the members' centroids", k)
+					}
+				}
+				return ""
+			},
+		},
+		{
+			entry: "planar.multiPointCentroid", terms: true, cases: mpCases,
+			desc: "the centroid is the mean of the points",
+			judge: func(it *Interp, cx interface{}, st *State) string {
+				ctx := cx.(*resampleCtx)
+				got := pointTerms(it, st.result[0])
+				for k := 0; k < 2; k++ {
+					sum := termConst(0)
+					for _, p := range ctx.pts {
+						sum = termAdd(sum, p[k], 1)
+					}
+					want := termMul(termConstRat(big.NewRat(1, int64(len(ctx.pts)))), sum)
+					if got[k] == nil || !termEqual(got[k], want) {
+						return fmt.Sprintf("centroid coordinate %d is not the mean of the points", k)
+					}
+				}
+				return ""
+			},
+		},
+	}
 }
